@@ -57,21 +57,19 @@ Theorem C09_tcp_upstream_stream : forall pp line segs,
 Proof. exact tcp_upstream_meets_spec. Qed.
 Print Assumptions C09_tcp_upstream_stream.
 
-(* tcp-dynamic: the client's stream for every segmentation; the PROXY option is ignored
-   (finding F-C09-4, region [region_dyn_proxyproto]). *)
+(* tcp-dynamic (fix commit 341d532: the PROXY header is written when pxyproto is set): like tcp,
+   for every segmentation the upstream receives [PROXY line] ++ the client's stream. *)
 Theorem C09_dynamic_upstream_stream : forall pp line segs,
-  upstream_stream KDyn pp line segs = Ok (Some (concat segs)).
+  upstream_stream KDyn pp line segs = Ok (Some (spec_upstream KDyn pp line (concat segs))).
 Proof. exact dynamic_upstream_stream. Qed.
 Print Assumptions C09_dynamic_upstream_stream.
 
-Theorem C09_dynamic_upstream_on_domain : forall line segs,
-  upstream_stream KDyn false line segs = Ok (Some (spec_upstream KDyn false line (concat segs))).
-Proof. exact dynamic_upstream_on_domain. Qed.
-Print Assumptions C09_dynamic_upstream_on_domain.
-
+(* F-C09-4, repaired by 341d532.  The unrepaired proxy never wrote the PROXY line: with
+   pxyproto=true the upstream's stream was not the specified one for any non-empty line. *)
 Theorem C09_dynamic_ignores_proxyproto_refuted : forall line segs, line <> [] ->
-  region_dyn_proxyproto KDyn true = true /\
-  upstream_stream KDyn true line segs <> Ok (Some (spec_upstream KDyn true line (concat segs))).
+  upstream_stream_dyn_unrepaired segs = Ok (Some (concat segs)) /\
+  upstream_stream_dyn_unrepaired segs <> Ok (Some (spec_upstream KDyn true line (concat segs))) /\
+  upstream_stream KDyn true line segs = Ok (Some (spec_upstream KDyn true line (concat segs))).
 Proof. exact dynamic_ignores_proxyproto_refuted. Qed.
 Print Assumptions C09_dynamic_ignores_proxyproto_refuted.
 
@@ -219,7 +217,7 @@ Proof. exact ws_split_101_refuted. Qed.
 Print Assumptions C09_ws_split_101_refuted.
 
 (* The link between the scenario analysis and the specification, with the interval semantics of
-   the correspondence check: for all scenarios, outside the open finding regions (F-C09-2/3/4) and
+   the correspondence check: for all scenarios, outside the open finding regions (F-C09-2/3) and
    the close-with-unread-reply race (kernel-decided, not generated), every observation within
    the model's forced outcome satisfies spec_b.  Verdict 4 cannot arise from the model side. *)
 Theorem C09_tunnel_expect_meets_spec : forall up reply cwait ce ut ue o_up o_cl,
@@ -233,7 +231,7 @@ Print Assumptions C09_tunnel_expect_meets_spec.
 
 Theorem C09_scenario_meets_spec : forall k pp line segs fin cwait ce ut reply rseg1 whead ue e o_up o_cl,
   scenario_expect k pp line segs fin cwait ce ut reply rseg1 whead ue = Ok e ->
-  region_dyn_proxyproto k pp = false -> region_ws_split k reply rseg1 = false ->
+  region_ws_split k reply rseg1 = false ->
   region_half_close cwait ce = false ->
   race_close_unread_reply (spec_upstream k pp line (concat segs)) cwait ce ut = false ->
   ws_head_first k ut whead = true ->
